@@ -339,6 +339,15 @@ void splinetable<Alloc>::read_fits_data(fitsfile* fits, const std::string& fileP
 	std::copy(naxes_temp.rbegin(),naxes_temp.rend(),naxes);
 	
 	// Compute the total array size and the strides into each dimension
+	{
+		//the element count must be representable, and so must the size in bytes
+		uint64_t total=1;
+		for(size_t i=0; i<ndim; i++){
+			if(uint64_t(naxes_temp[i])>(std::numeric_limits<uint64_t>::max()/sizeof(float))/total)
+				throw std::runtime_error("Coefficient array size overflows");
+			total*=uint64_t(naxes_temp[i]);
+		}
+	}
 	strides = allocate<uint64_t>(ndim);
 	strides[0]=1;
 	std::partial_sum(naxes_temp.begin(),naxes_temp.end()-1,strides+1,std::multiplies<uint64_t>());
